@@ -22,6 +22,17 @@ Theorem C07_model_is_source_enumeration :
 Proof. exact (conj src_lower_tri_is_model src_lower_tri_negative). Qed.
 Print Assumptions C07_model_is_source_enumeration.
 
+(* ... and get_lower_triangular_indices_chunk as ONE whole function (the assert, the arithmetic, the generator's list,
+   consume(g, start) and list(islice(g, k)) as skipn / firstn that refuse a negative count; consume and
+   get_number_of_lower_triangular_indices are translated too) IS Chunks.chunk_checked for all integer arguments, which for a
+   chunk index in range 0 <= k < c is Chunks.chunk - the function all partition theorems below are about *)
+Theorem C07_model_is_source_get_lower_triangular_indices_chunk :
+  (forall n k c : Z, src_get_lower_triangular_indices_chunk n k c = chunk_checked n k c) /\
+  (forall (n : nat) (k c : Z), (0 <= k < c)%Z -> chunk_checked (Z.of_nat n) k c = Ok (map zpair (chunk n k c))) /\
+  (forall (n k c : Z) l, (n <= 0)%Z -> chunk_checked n k c = Ok l -> l = []).
+Proof. exact (conj src_chunk_is_model (conj chunk_checked_in_range chunk_checked_negative)). Qed.
+Print Assumptions C07_model_is_source_get_lower_triangular_indices_chunk.
+
 (* the chunks, concatenated in index order, are the enumeration of all pairs i>j *)
 Theorem C07_chunks_partition : forall n c, (0 < c)%nat -> concat (all_chunks n c) = lower_tri n.
 Proof. exact chunks_concat. Qed.
